@@ -6,7 +6,7 @@ cd "$(dirname "$0")/.." || exit 2
 V=$(pwd)
 if [ "$1" = "--one" ]; then
     d=$2; id=$(basename $d)
-    prop=$(python3 -c "import json;print(json.load(open('$d/meta.json'))['property'])")
+    prop=$(python3 -c "import json;m=json.load(open('$d/meta.json')); print(m.get('caught_by', m['property']))")
     tree=$(mktemp -d /tmp/sweeptree-XXXXXX); rp=$(mktemp -d /tmp/sweeprp-XXXXXX)
     git -C /repo archive HEAD | tar -x -C $tree
     if ! (cd $tree && patch -p1 --no-backup-if-mismatch -s < $V/$d/patch.diff >/dev/null 2>&1); then
